@@ -35,6 +35,70 @@ CHECKS["C03"] = ("model_checking",
     "Trusted: F64.java, TLC evaluator, IvpMethods constants (order conditions checked by TLC in MC_IvpMethods).",
     "DESIGN.md §4 C03")
 
+TRUST = "Trusted: F64.java (IEEE ops via java.lang.Math), TLC evaluator, harness recording; constants K are calibrated, not derived."
+CHECKS["C02"] = ("exploration",
+    "recorded paths validated by TLC against closed-form flows written in TLA+ (IvpMethods / Val_IvpAccuracy)",
+    "For every consecutive pair of items of every recorded path TLC evaluates the exact flow restarted from the previous point and requires "
+    "the local error to be within KL*tol*h (KLB*tol for BDF). Exploration over seeded problems; nothing is proved about the error control.",
+    TRUST, "DESIGN.md §4 C02")
+CHECKS["C04"] = ("exploration",
+    "recorded paths validated by TLC against closed-form solutions (real and complex) and static/dynamic pairs compared item by item",
+    "Every yielded state is compared by TLC with the closed-form solution at that time (bound KG*tol*G, Euler: first-order bound), complex "
+    "linear problems against the complex closed form, and each dynamic-dimension run against its static twin to 1e-12.",
+    TRUST, "DESIGN.md §4 C04")
+CHECKS["C05"] = ("exploration",
+    "derivative-call counting with a hard budget; TLC (Val_Ivp) checks completion, exact end time and the work bound; termination of the "
+    "protocol for every verdict sequence is model-checked in MC_IvpProtocol",
+    "Seeded smooth problems (incl. at rest, relaxing, hard starts): TLC requires every run to complete without error within the budget and "
+    "its evaluation count to be <= 100*(L/dtmax + L*tol^(-1/p)) + 200. The constant is wide by design.",
+    TRUST, "DESIGN.md §4 C05")
+CHECKS["C06"] = ("model_checking",
+    "TLC model-checks the builder contract (MC_IvpBuilder) and generates all call sequences in scope, replayed on the seven builders and "
+    "judged by TLC (Val_IvpBuilder); fault enumeration over every derivative call of reference runs judged against IvpContract",
+    "Builder: exhaustive over call sequences in small scope (both contracts, all constructor/dimension combinations, 9 preambles), each call's "
+    "Ok/error variant compared with the TLA+ contract. Faults: the derivative fails at call k for every k (capped) - exactly one Err item "
+    "carrying that error, then None, also through collect_vec.",
+    TRUST + " Hooks: verif_params() accessor (drift reporting only).", "DESIGN.md §4 C06")
+CHECKS["C07"] = ("model_checking",
+    "TLC model-checks a lattice design of bisection (MC_Bisection) against the contract; lattice and seeded runs of bisection/Brent/ITP with a "
+    "recording function are judged by TLC against the contract module Bracket",
+    "E1: every bracket/root position/sign/tolerance on a 64-unit lattice for the bisection design (abscissae inside, sign change kept, halving "
+    "bound, result near a root). E2/E3: every recorded run of the three real solvers (abscissae seen, evaluation count, result) checked "
+    "against the contract with root sets written in TLA+.",
+    TRUST, "DESIGN.md §4 C07")
+CHECKS["C08"] = ("exploration",
+    "TLC-generated exhaustive affine systems + seeded systems/polynomials/contractions run on the real routines; TLC (Val_C08) judges each "
+    "run against the contract Iterative (cap, finite, distance to root / residual, Err for singular)",
+    "Exhaustive in small scope for affine systems (exact expected root), exploration elsewhere. The contract (not a convergence proof) is "
+    "evaluated by TLC on every run.",
+    TRUST, "DESIGN.md §4 C08")
+CHECKS["C11"] = ("exploration",
+    "TLC-generated exhaustive operand pairs + seeded large shapes through 32 operator forms; TLC (Val_C11, Val_C11Dft) compares with the exact "
+    "coefficient algebra of module Poly",
+    "Exhaustive in small scope over Z and Z[i] (exact expected coefficients), seeded up to degree 128 with the statement's rounding bound, "
+    "degree clause, pointwise agreement, dft = values at roots of unity, idft round trip.",
+    TRUST, "DESIGN.md §4 C11")
+CHECKS["C12"] = ("exploration",
+    "TLC constructs dividends exactly as q*d+r; the harness divides; TLC (Val_C12) checks reconstruction, remainder degree and (q, r)",
+    "Exhaustive in small scope with exact expected quotient and remainder, seeded shapes with the backward-error bound of the statement.",
+    TRUST, "DESIGN.md §4 C12")
+CHECKS["C13"] = ("model_checking",
+    "TLC explores the coefficient-editing state machine (MC_Poly) and enumerates all histories in scope, replayed on the real Polynomial and "
+    "compared by TLC after every step (Val_C13Hist); evaluation/calculus cases compared with term-wise calculus (Val_C13Fn)",
+    "Histories: every operation sequence in scope (powers up to and beyond the length) from five initial polynomials, the real coefficient "
+    "map compared with the model after each step. Functions: exhaustive small scope + seeded degree <= 30.",
+    TRUST, "DESIGN.md §4 C13")
+CHECKS["C15"] = ("exploration",
+    "TLC enumerates ordered node tuples (all permutations) with data sampled from integer polynomials; TLC (Val_C15) checks degree bound, "
+    "reproduction and recovery of the source polynomial with a per-case conditioning bound",
+    "Exhaustive on a half-integer lattice (exact data), seeded up to 8 nodes; uniqueness is checked by comparing with the sampled polynomial.",
+    TRUST, "DESIGN.md §4 C15")
+CHECKS["C19"] = ("exploration",
+    "TLC enumerates polynomials x dyadic points x dyadic steps; TLC (Val_C19) evaluates exact derivative + closed-form truncation term",
+    "For polynomials of degree <= 6 the truncation error of both stencils is known in closed form, so every weight of the stencil is pinned; "
+    "smooth functions against the classical remainder bound.",
+    TRUST, "DESIGN.md §4 C19")
+
 NOT_YET = {}
 
 NA = {
